@@ -72,11 +72,15 @@ def tokenize(text):
         if cur == '[VERSION]':
             out['version'][toks[0]] = toks[1]
         elif cur == '[DEFINITIONS]':
-            key = toks[0]
+            # the value part is split at single blanks (the format's separator); it is numeric iff EVERY piece is a
+            # finite decimal, otherwise the rest of the line is free text
+            key = line.split(' ')[0]
+            pieces = line.split(' ')[1:]
             try:
-                val = [dec(t) for t in toks[1:]]
+                val = [dec(t) for t in pieces]
             except TokenizeError:
                 val = line[len(key) + 1:].strip()
+            toks = [key] + pieces
             out['defs'][key] = val
             out['def_order'].append(key)
             out['raw'].setdefault('defs', []).append(toks)
@@ -128,7 +132,12 @@ def num_defs(definitions):
                 continue
         else:
             vals = [v]
-        out.append((k, [F(float(x)) for x in vals]))
+        if any(isinstance(x, (list, tuple, np.ndarray)) for x in vals):
+            continue
+        vals = [float(x) for x in vals]
+        if any(x != x or x in (float('inf'), float('-inf')) for x in vals):
+            continue                                   # nan / inf are printed as words: treated as text
+        out.append((k, [F(x) for x in vals]))
     return out
 
 
